@@ -329,6 +329,11 @@ func findIDInQueue[M interface{ ID() EventID }](q *queue[M], id EventID, autoID 
 	}
 
 	if autoID {
+		// Generated IDs are canonical decimals: a value with a leading zero was never issued.
+		if s := id.String(); len(s) > 1 && s[0] == '0' {
+			return -1
+		}
+
 		id, err := strconv.ParseUint(id.String(), 10, 64)
 		if err != nil {
 			return -1
